@@ -38,7 +38,11 @@ DEFAULT_PROFILE = dict(
     real_special=True,
     union_constraints=True,
     inline_depth=2,
-    neg_defaults=False,       # DEFAULT with a negative INTEGER (KF: uncompilable C identifier)
+    neg_defaults=False,
+    bit_trailing_one=False,   # BIT STRING values always end in a 1 bit (KF: UPER/OER drop trailing zero bits)
+    real_decimal15=False,     # REAL values exactly representable in <= 15 significant decimal digits (BASIC/CANONICAL XER text)
+    wide_plain=False,         # BMPString/UniversalString values restricted to ASCII letters/digits (KF: XER)
+       # DEFAULT with a negative INTEGER (KF: uncompilable C identifier)
 )
 
 
@@ -182,8 +186,8 @@ class Gen:
             lo, hi = uni[i], uni[j]
             if ord(hi) - ord(lo) != j - i:
                 hi = chr(ord(lo))
-            if lo in '"' or hi in '"':
-                lo, hi = "0", "9"
+            if lo in "\"'" or hi in "\"'":
+                lo, hi = "0", "9"      # asn1c's lexer mis-tokenises ' and " inside cstrings (rejects, with diagnostic)
             return Constraint([(("range", lo, hi), False, None)])
         if shape == "list":
             n = rng.choice([1, 2, 3, 4, 5, 8, 9, 16, 17])
@@ -258,6 +262,8 @@ class Gen:
                 t.size_c = None
             return t
         n = rng.choice([0, 1, 1, 2, 2, 3, 3, 4, 5, 7]) if k != "CHOICE" else rng.choice([1, 2, 2, 3, 4, 6])
+        if k == "SET" and n == 0 and not p.get("empty_set"):
+            n = 1       # KF-C10: "SET { ... }" / "SET { }" emits an empty enum (uncompilable)
         comps = []
         for i in range(n):
             mt = self.member_type(depth)
@@ -427,6 +433,10 @@ class Gen:
             if rt.ext_items:
                 items += rt.ext_items
             return rng.choice(items)[1]
+        if k == "REAL" and p["real_decimal15"]:
+            return rng.choice([0.0, 1.0, -1.0, 0.5, 2.0, 3.0, -0.25, 1024.0, 123456.0, -65536.0, 0.125, 1e15, -3.5,
+                               float(rng.randrange(-1000000, 1000000)), rng.randrange(-4096, 4096) / 64.0,
+                               math.inf, -math.inf])
         if k == "REAL":
             r = rng.random()
             if r < 0.25 and p["real_special"]:
@@ -448,7 +458,7 @@ class Gen:
             data = bytearray(rng.getrandbits(8) for _ in range(nbytes))
             if n % 8 and data:
                 data[-1] &= (0xff << (8 - n % 8)) & 0xff
-            if rt.named and n:
+            if (rt.named or p["bit_trailing_one"]) and n:
                 # avoid trailing-zero ambiguity of named bit lists: make last bit 1
                 data[(n - 1) // 8] |= 0x80 >> ((n - 1) % 8)
             return (bytes(data), n)
@@ -466,9 +476,9 @@ class Gen:
                 if k == "UTF8String":
                     alpha = "az AZ09éÿĀ߿ࠀ€￿\U00010000\U0010ffff<>&\"'"
                 elif k == "BMPString":
-                    alpha = "az AZ09éĀ€￿\u0001<>&"
+                    alpha = "az AZ09éĀ€￿\u0001<>&" if not p["wide_plain"] else "azAZ09"
                 elif k == "UniversalString":
-                    alpha = "az AZ09éĀ€￿\U00010000\U0010ffff<>&"
+                    alpha = "az AZ09éĀ€￿\U00010000\U0010ffff<>&" if not p["wide_plain"] else "azAZ09"
                 else:
                     alpha = ALPHABET[k]
                     if k in ("IA5String",):
